@@ -533,7 +533,10 @@ Definition capture_in (c : capture) (l : list capture) : bool := existsb (captur
 Inductive mode :=
 | Exposure (debug : bool)                       (* one run, debug capture on/off *)
 | Observation (runs : list (list override))     (* observation without dask: one run per entry *)
-| Calibration.                                  (* every fitness evaluation is one n-step run *)
+| Calibration                                   (* every fitness evaluation is one n-step run *)
+| ObservationDask (runs : list (list override)). (* observation with dask (synchronous scheduler): the
+                                                   runs are tasks, executed in the scheduler's order,
+                                                   and dask may execute a run more than once *)
 
 Inductive outcome :=
 | Ran (trace : list obs_call) (nodes : option (list capture))   (* nodes: only with debug on *)
@@ -554,6 +557,34 @@ Fixpoint is_repetition (fuel : nat) (u t : list obs_call) : bool :=
       list_eqb obs_eqb t u ||
       (negb (Nat.eqb (List.length u) 0) && Nat.ltb (List.length u) (List.length t) &&
        list_eqb obs_eqb (firstn (List.length u) t) u && is_repetition f u (skipn (List.length u) t))
+  end.
+
+Definition is_nil_obs (l : list obs_call) : bool := match l with [] => true | _ => false end.
+
+(* t cut into blocks of L calls *)
+Fixpoint chunks (fuel L : nat) (t : list obs_call) : list (list obs_call) :=
+  match fuel with
+  | O => []
+  | S f => match t with
+           | [] => []
+           | _ => firstn L t :: chunks f L (skipn L t)
+           end
+  end.
+
+Definition mem_trace (x : list obs_call) (l : list (list obs_call)) : bool :=
+  existsb (list_eqb obs_eqb x) l.
+
+(* every block of the recorded calls is the complete trace of one of the requested runs, and every
+   requested run was executed (all runs of one observation make the same number of calls: a parameter
+   never switches a model on or off) *)
+Definition covers_runs (exp : list (list obs_call)) (t : list obs_call) : bool :=
+  match exp with
+  | [] => is_nil_obs t
+  | e0 :: _ =>
+      let L := List.length e0 in
+      if Nat.eqb L 0 then is_nil_obs t
+      else let cs := chunks (S (List.length t)) L t in
+           forallb (fun c => mem_trace c exp) cs && forallb (fun e => mem_trace e cs) exp
   end.
 
 Definition captures_of (t : list call) : list capture :=
@@ -612,6 +643,12 @@ Definition agrees_run (faithful : bool)
       match o with
       | Failed _ => false
       | Ran t _ => is_repetition (S (List.length t)) (map obs_of (fst (run false p steps))) t
+      end
+  | ObservationDask runs =>
+      match o with
+      | Failed _ => false
+      | Ran t _ =>
+          covers_runs (map (fun os => map obs_of (fst (run false (apply_overrides p os) steps))) runs) t
       end
   end.
 
